@@ -81,6 +81,7 @@ class ED_Solver(ExactSolver):
         prob.ED_driver()
 
         self.x = prob.ED_profile.x
+        self.sound = prob.sound
         self.Fr = prob.C0 * prob.ar * prob.Tref**4 * prob.ED_profile.Fr
         self.Tm = prob.Tref * prob.ED_profile.Tm
         self.Density = prob.rho0 * prob.ED_profile.Density
@@ -199,6 +200,7 @@ class nED_Solver(ExactSolver):
         prob.nED_driver(epsilon = self.epsilon)
 
         self.x = prob.nED_profile.x
+        self.sound = prob.sound
         self.Tm = prob.Tref * prob.nED_profile.Tm
         self.Tr = prob.Tref * prob.nED_profile.Tr
         self.Fr = prob.C0 * prob.ar * prob.Tref**4 * prob.nED_profile.Fr
@@ -321,6 +323,7 @@ class Sn_Solver(ExactSolver):
         prob.Sn_driver(Sn = self.Sn, f_tol = self.f_tol)
 
         self.x = prob.Sn_profile.x
+        self.sound = prob.sound
         self.Tm = prob.Tref * prob.Sn_profile.Tm
         self.Tr = prob.Tref * prob.Sn_profile.Tr
         self.Fr = prob.C0 * prob.ar * prob.Tref**4 * prob.Sn_profile.Fr
@@ -425,6 +428,7 @@ class ie_Solver(ExactSolver):
         prob.IE_driver()
 
         self.x = prob.IE_profile.x
+        self.sound = prob.sound
         self.Ti = prob.Tref * prob.IE_profile.Ti
         self.Tm = prob.Tref * prob.IE_profile.Tm
         self.Te = prob.Tref * prob.IE_profile.Te
